@@ -126,9 +126,9 @@ Proof.
 Qed.
 Lemma t_from_brace s s0 tl : hdr s = HNo -> hdr s0 = HNo -> run s (kw "{" :: tl) = run s0 (kw "{" :: tl).
 Proof. intros H H0. cbn [run]. unfold step. change (classify (kw "{")) with KOther. rewrite H, H0. reflexivity. Qed.
-Lemma t_pargs sug args :
-  Forall (fun e => trans O (pexp e) G) args -> sug = true -> sugarable args = true ->
-  trans G (gap_sugar c :: commas (map pexp args)) G.
+Lemma t_pargs d sug args :
+  Forall (fun e => forall d, trans O (pexp d e) G) args -> sug = true -> sugarable args = true ->
+  trans G (gap_sugar c :: commas (map (pexp d) args)) G.
 Proof.
   intros H _ S. destruct args as [|x [|y r]]; [discriminate| |destruct x; discriminate]. cbn [map commas].
   inversion H as [|? ? Hx _]; subst.
@@ -136,20 +136,25 @@ Proof.
   destruct x; try discriminate.
   - (* a string *) cbn [Fmt0.pexp]. apply t_val. reflexivity.
   - (* a table: its opening brace forgets what came before *)
-    intros s Hs. assert (E : run s (pexp (ETable fs)) = run (mk false false HNo) (pexp (ETable fs))).
+    intros s Hs. assert (E : run s (pexp d (ETable fs)) = run (mk false false HNo) (pexp d (ETable fs))).
     { destruct fs as [|f fs]; [apply (t_from_brace s (mk false false HNo) [kw "}"] Hs eq_refl)|].
-      apply (t_from_brace s (mk false false HNo) (sp :: commas (map pexp (f :: fs)) ++ [sp; kw "}"]) Hs eq_refl). }
+      apply (t_from_brace s (mk false false HNo) (sp :: commas (map (pexp d) (f :: fs)) ++ [sp; kw "}"]) Hs eq_refl). }
+    rewrite E. apply Hx. split; reflexivity.
+  - (* a table over several lines: the same *)
+    intros s Hs. assert (E : run s (pexp d (ETableML fs)) = run (mk false false HNo) (pexp d (ETableML fs))).
+    { destruct fs as [|f fs]; [apply (t_from_brace s (mk false false HNo) [kw "}"] Hs eq_refl)|].
+      rewrite (p_tableml c). apply (t_from_brace s (mk false false HNo) (eol c :: tlines c d (f :: fs) ++ indent c d ++ [kw "}"]) Hs eq_refl). }
     rewrite E. apply Hx. split; reflexivity.
 Qed.
-Lemma t_pargs_any sg args : Forall (fun e => trans O (pexp e) G) args -> trans G (pargs c (sg && sugarable args) (commas (map pexp args))) G.
+Lemma t_pargs_any d sg args : Forall (fun e => forall d, trans O (pexp d e) G) args -> trans G (pargs c (sg && sugarable args) (commas (map (pexp d) args))) G.
 Proof.
   intros H. unfold pargs. destruct (sg && sugarable args) eqn:S.
-  - apply andb_true_iff in S. apply (t_pargs true args H eq_refl (proj2 S)).
-  - apply t_pargs_paren. destruct args as [|a r]; [right; reflexivity|left]. apply t_commas; [apply Forall_map; exact H|discriminate].
+  - apply andb_true_iff in S. apply (t_pargs d true args H eq_refl (proj2 S)).
+  - apply t_pargs_paren. destruct args as [|a r]; [right; reflexivity|left]. apply t_commas; [apply Forall_map; eapply Forall_impl; [|exact H]; intros a0 Ha0; apply Ha0|discriminate].
 Qed.
-Theorem t_pexp : forall e, trans O (pexp e) G.
+Theorem t_pexp : forall e d, trans O (pexp d e) G.
 Proof.
-  induction e using exp_ind'; cbn [Fmt0.pexp].
+  induction e using exp_ind'; intros d; cbn [Fmt0.pexp].
   - apply (trans_weak A O OG G); [apply O_A|apply OG_G|kwo].
   - apply (trans_weak A O OG G); [apply O_A|apply OG_G|kwo].
   - apply (trans_weak A O OG G); [apply O_A|apply OG_G|kwo].
@@ -157,39 +162,52 @@ Proof.
   - apply (trans_weak A O OG G); [apply O_A|apply OG_G|apply t_other; reflexivity].
   - apply (trans_weak A O G G); [apply O_A|auto|apply t_val; reflexivity].
   - apply (trans_weak A O G G); [apply O_A|auto|apply t_val; reflexivity].
-  - (* p.n *) apply (trans_app O G G); [exact IHe|]. apply (trans_cons G OG G); [apply (trans_weak A G OG OG); [apply G_A|auto|kwo]|].
+  - (* p.n *) apply (trans_app O G G); [apply IHe|]. apply (trans_cons G OG G); [apply (trans_weak A G OG OG); [apply G_A|auto|kwo]|].
     apply (trans_weak A OG G G); [intros s0 H0; apply (O_A s0 (OG_O s0 H0))|auto|apply t_val; reflexivity].
-  - (* p[k] *) apply (trans_app O G G); [exact IHe1|]. apply (trans_cons G OG G); [apply (trans_weak A G OG OG); [apply G_A|auto|kwo]|].
-    apply (trans_app OG G G); [apply (trans_weak O OG G G); [apply OG_O|auto|exact IHe2]|]. apply (trans_weak A G G G); [apply G_A|auto|apply t_val; reflexivity].
-  - (* f(args) *) apply (trans_app O G G); [exact IHe|]. apply t_pargs_any. exact H.
-  - (* o:m(args) *) apply (trans_app O G G); [exact IHe|]. apply (trans_cons G OG G); [apply (trans_weak A G OG OG); [apply G_A|auto|kwo]|].
+  - (* p[k] *) apply (trans_app O G G); [apply IHe1|]. apply (trans_cons G OG G); [apply (trans_weak A G OG OG); [apply G_A|auto|kwo]|].
+    apply (trans_app OG G G); [apply (trans_weak O OG G G); [apply OG_O|auto|apply IHe2]|]. apply (trans_weak A G G G); [apply G_A|auto|apply t_val; reflexivity].
+  - (* f(args) *) apply (trans_app O G G); [apply IHe|]. apply t_pargs_any. exact H.
+  - (* o:m(args) *) apply (trans_app O G G); [apply IHe|]. apply (trans_cons G OG G); [apply (trans_weak A G OG OG); [apply G_A|auto|kwo]|].
     apply (trans_cons OG G G); [apply (trans_weak A OG G G); [intros s0 H0; apply (O_A s0 (OG_O s0 H0))|auto|apply t_val; reflexivity]|].
     apply t_pargs_any. exact H.
-  - (* unary *) apply (trans_app O O G); [|exact IHe]. destruct u; cbn [uop_toks].
+  - (* unary *) apply (trans_app O O G); [|apply IHe]. destruct u; cbn [uop_toks].
     + apply (trans_weak A O OG O); [apply O_A|apply OG_O|kwo].
     + apply (trans_cons O OG O); [apply (trans_weak A O OG OG); [apply O_A|auto|kwo]|]. apply (trans_weak O OG O O); [apply OG_O|auto|apply t_sp_O].
     + apply (trans_weak A O OG O); [apply O_A|apply OG_O|kwo].
     + apply (trans_weak A O OG O); [apply O_A|apply OG_O|kwo].
-  - (* binary *) apply (trans_app O G G); [exact IHe1|]. apply (trans_cons G A G); [apply (trans_weak A G A A); [apply G_A|auto|apply t_sp_A]|].
-    apply (trans_cons A OG G); [apply t_other; destruct b; reflexivity|]. apply (trans_cons OG O G); [apply (trans_weak O OG O O); [apply OG_O|auto|apply t_sp_O]|]. exact IHe2.
+  - (* binary *) apply (trans_app O G G); [apply IHe1|]. apply (trans_cons G A G); [apply (trans_weak A G A A); [apply G_A|auto|apply t_sp_A]|].
+    apply (trans_cons A OG G); [apply t_other; destruct b; reflexivity|]. apply (trans_cons OG O G); [apply (trans_weak O OG O O); [apply OG_O|auto|apply t_sp_O]|]. apply IHe2.
   - (* parentheses: only ever printed where no value precedes *)
-    apply (trans_cons O OG G); [apply t_open_O|]. apply (trans_app OG G G); [apply (trans_weak O OG G G); [apply OG_O|auto|exact IHe]|].
+    apply (trans_cons O OG G); [apply t_open_O|]. apply (trans_app OG G G); [apply (trans_weak O OG G G); [apply OG_O|auto|apply IHe]|].
     apply (trans_weak A G G G); [apply G_A|auto|apply t_val; reflexivity].
   - (* table *) destruct fs as [|f fs].
     + apply (trans_cons O OG G); [apply (trans_weak A O OG OG); [apply O_A|auto|kwo]|]. apply (trans_weak A OG G G); [intros s0 H0; apply (O_A s0 (OG_O s0 H0))|auto|apply t_val; reflexivity].
     + apply (trans_cons O OG G); [apply (trans_weak A O OG OG); [apply O_A|auto|kwo]|].
       apply (trans_cons OG O G); [apply (trans_weak O OG O O); [apply OG_O|auto|apply t_sp_O]|].
-      apply (trans_app O G G); [apply t_commas; [apply Forall_map; exact H|discriminate]|].
+      apply (trans_app O G G); [apply t_commas; [apply Forall_map; eapply Forall_impl; [|exact H]; intros a0 Ha0; apply Ha0|discriminate]|].
       apply (trans_cons G A G); [apply (trans_weak A G A A); [apply G_A|auto|apply t_sp_A]|]. apply t_val. reflexivity.
-  - exact IHe.
+  - apply IHe.
   - (* n = x *) apply (trans_cons O G G); [apply (trans_weak A O G G); [apply O_A|auto|apply t_val; reflexivity]|].
     apply (trans_cons G A G); [apply (trans_weak A G A A); [apply G_A|auto|apply t_sp_A]|]. apply (trans_cons A OG G); [kwo|].
-    apply (trans_cons OG O G); [apply (trans_weak O OG O O); [apply OG_O|auto|apply t_sp_O]|]. exact IHe.
+    apply (trans_cons OG O G); [apply (trans_weak O OG O O); [apply OG_O|auto|apply t_sp_O]|]. apply IHe.
   - (* [k] = x *) apply (trans_cons O OG G); [apply (trans_weak A O OG OG); [apply O_A|auto|kwo]|].
-    apply (trans_app OG G G); [apply (trans_weak O OG G G); [apply OG_O|auto|exact IHe1]|].
+    apply (trans_app OG G G); [apply (trans_weak O OG G G); [apply OG_O|auto|apply IHe1]|].
     apply (trans_cons G G G); [apply (trans_weak A G G G); [apply G_A|auto|apply t_val; reflexivity]|].
     apply (trans_cons G A G); [apply (trans_weak A G A A); [apply G_A|auto|apply t_sp_A]|]. apply (trans_cons A OG G); [kwo|].
-    apply (trans_cons OG O G); [apply (trans_weak O OG O O); [apply OG_O|auto|apply t_sp_O]|]. exact IHe2.
+    apply (trans_cons OG O G); [apply (trans_weak O OG O O); [apply OG_O|auto|apply t_sp_O]|]. apply IHe2.
+  - (* a table over several lines: every line is behind a line break, every field ends before a comma *)
+    destruct fs as [|f fs].
+    + apply (trans_cons O OG G); [apply (trans_weak A O OG OG); [apply O_A|auto|kwo]|]. apply (trans_weak A OG G G); [intros s0 H0; apply (O_A s0 (OG_O s0 H0))|auto|apply t_val; reflexivity].
+    + change (trans O (kw "{" :: eol c :: tlines c d (f :: fs) ++ indent c d ++ [kw "}"]) G).
+      apply (trans_cons O OG G); [apply (trans_weak A O OG OG); [apply O_A|auto|kwo]|].
+      apply (trans_cons OG OG G); [apply (trans_weak A OG OG OG); [intros s0 H0; apply (O_A s0 (OG_O s0 H0))|auto|apply t_eol]|].
+      assert (L : forall l, Forall (fun e => forall d, trans O (pexp d e) G) l -> trans OG (tlines c d l) OG).
+      { unfold tlines. induction 1 as [|x r Hx Hr IH]; [apply trans_nil; auto|]. cbn [map List.concat].
+        apply (trans_app OG OG OG); [|exact IH]. apply (trans_app OG O OG); [apply (trans_weak O OG O O); [apply OG_O|auto|apply t_indent_O]|].
+        apply (trans_app O G OG); [apply Hx|]. apply (trans_cons G OG OG); [apply (trans_weak A G OG OG); [apply G_A|auto|kwo]|].
+        apply (trans_weak A OG OG OG); [intros s0 H0; apply (O_A s0 (OG_O s0 H0))|auto|apply t_eol]. }
+      apply (trans_app OG OG G); [apply L; exact H|]. apply (trans_app OG O G); [apply (trans_weak O OG O O); [apply OG_O|auto|apply t_indent_O]|].
+      apply (trans_weak A O G G); [apply O_A|auto|apply t_val; reflexivity].
 Qed.
 
 (* ---------------- statements ---------------- *)
@@ -221,11 +239,11 @@ Proof. intros A1 A2. apply trans_weak; assumption. Qed.
 Lemma c_nil P Q : sub P Q -> trans P [] Q. Proof. apply trans_nil. Qed.
 Ltac kwc := apply c_kw_other; reflexivity.
 
-Lemma t_pexp_s e P Q : sub P O -> sub G Q -> trans P (pexp e) Q.
-Proof. intros S1 S2. apply (c_weak (pexp e) O P G Q S1 S2). apply t_pexp. Qed.
-Lemma t_pexps es P Q : sub P O -> sub G Q -> sub P Q -> trans P (pexps es) Q.
+Lemma t_pexp_s d e P Q : sub P O -> sub G Q -> trans P (pexp d e) Q.
+Proof. intros S1 S2. apply (c_weak (pexp d e) O P G Q S1 S2). apply t_pexp. Qed.
+Lemma t_pexps d es P Q : sub P O -> sub G Q -> sub P Q -> trans P (pexps d es) Q.
 Proof.
-  intros S1 S2 S3. destruct es as [|e r]; [apply c_nil; exact S3|]. apply (c_weak (pexps (e :: r)) O P G Q S1 S2).
+  intros S1 S2 S3. destruct es as [|e r]; [apply c_nil; exact S3|]. apply (c_weak (pexps d (e :: r)) O P G Q S1 S2).
   unfold Fmt0.pexps. apply t_commas; [|discriminate]. apply Forall_map. apply Forall_forall. intros x _. apply t_pexp.
 Qed.
 Lemma t_pnames ns P Q : sub P O -> sub G Q -> sub P Q -> trans P (pnames ns) Q.
@@ -296,7 +314,7 @@ Proof.
   apply (trans_cons H H H); [apply h_other; kwc|apply h_val; reflexivity].
 Qed.
 (* the statements without a block inside *)
-Lemma t_psimple s : trans O (psimple c s) A.
+Lemma t_psimple d s : trans O (psimple c d s) A.
 Proof.
   destruct s; try (apply c_nil; auto with sub); cbn [psimple].
   - destruct es as [|e es']; apply c_other; try kwc; auto with sub; (apply c_sp_O; [auto with sub|]).
@@ -310,7 +328,7 @@ Proof.
   - apply c_other; [kwc|auto with sub|apply c_nil; auto with sub].
 Qed.
 (* ` <statement> end` behind `then` or a function header *)
-Lemma t_collapsed s1 : trans O (sp :: psimple c s1 ++ [sp; kw "end"]) A.
+Lemma t_collapsed d s1 : trans O (sp :: psimple c d s1 ++ [sp; kw "end"]) A.
 Proof.
   apply c_sp_O; [apply sub_refl|]. apply (c_app _ _ O A A); [apply t_psimple|]. apply c_sp_A; [apply sub_refl|].
   apply c_other; [kwc|apply sub_refl|apply c_nil; auto with sub].
@@ -331,8 +349,9 @@ Lemma t_fbody b d : Bs b -> trans O (fbody c d b) A.
 Proof.
   intros Hb. unfold fbody. destruct (blk_empty b).
   - apply c_sp_A; [auto with sub|]. apply c_other; [kwc|auto with sub|apply c_nil; auto with sub].
-  - destruct (fun_guard c b) as [s1|]; [apply t_collapsed|].
-    apply c_eol; [auto with sub|]. apply (c_weak _ O OG A A); [auto with sub|apply sub_refl|]. apply t_block_end; [exact Hb|auto with sub].
+  - assert (N : trans O (eol c :: pblk c (S d) b ++ indent c d ++ [kw "end"]) A).
+    { apply c_eol; [auto with sub|]. apply (c_weak _ O OG A A); [auto with sub|apply sub_refl|]. apply t_block_end; [exact Hb|auto with sub]. }
+    destruct (fun_guard c b) as [s1|]; [destruct (oneline (psimple c d s1)); [apply t_collapsed|exact N]|exact N].
 Qed.
 Lemma t_concat_items is : Forall Is is -> forall d, trans O (List.concat (map (pitem c d) is)) O.
 Proof. induction 1 as [|i r Hi Hr IH]; intros d; [apply c_nil; apply sub_refl|]. cbn [map List.concat]. apply (c_app _ _ O O O); [apply Hi|apply IH]. Qed.
